@@ -591,7 +591,7 @@ def generate(prop, tier, seed, genfn=None, first=1):
         import copy
         extra = []
         for k, s in enumerate(scens):
-            if s.get('topo') or s.get('runner') or s.get('manual') or s.get('cap') or s.get('rawsrv') or s.get('rawcli'):
+            if s.get('topo') or s.get('runner') or s.get('manual') or s.get('cap') or s.get('rawsrv') or s.get('rawcli') or s.get('nocap'):
                 continue
             if tier == 'quick' and k % 4:
                 continue
